@@ -7,7 +7,9 @@ Require Import Base.
 Require Import gen.ConcFacts.
 Open Scope nat_scope.
 
-Inductive pc := Idle | Waiting | InBody (snap : nat).
+(* WaitLook / InLook: a client thread inside the generated downcast_concrete (wrapper.rs): it takes
+   the same lock and runs the caller's closure on a shared reference to the implementation *)
+Inductive pc := Idle | Waiting | InBody (snap : nat) | WaitLook | InLook (seen : nat).
 Record thr := mkT { owns : nat; at_ : pc }.
 
 Record st := mkSt' {
@@ -63,6 +65,17 @@ Inductive step : st -> st -> Prop :=
 | SRet s i snap : i < List.length (ths s) -> at_ (get (ths s) i) = InBody snap ->
     step s (mkSt' (refs s) (if arm_holds_lock_during_call then None else lock s) (freed s) (drops s)
                   (S snap) (S (completed s))
+                  (upd (ths s) i (mkT (owns (get (ths s) i)) Idle)))
+(* downcast_concrete on a handle the thread holds: lock, run the caller's closure on &impl, unlock
+   after the closure returned (downcast_closure_under_lock); the closure changes nothing *)
+| SLook s i : i < List.length (ths s) -> at_ (get (ths s) i) = Idle -> 1 <= owns (get (ths s) i) ->
+    step s (mkSt' (refs s) (lock s) (freed s) (drops s) (impl s) (completed s)
+                  (upd (ths s) i (mkT (owns (get (ths s) i)) WaitLook)))
+| SLookAcq s i : i < List.length (ths s) -> at_ (get (ths s) i) = WaitLook -> lock s = None ->
+    step s (mkSt' (refs s) (if downcast_closure_under_lock then Some i else None) (freed s) (drops s) (impl s) (completed s)
+                  (upd (ths s) i (mkT (owns (get (ths s) i)) (InLook (impl s)))))
+| SLookEnd s i seen : i < List.length (ths s) -> at_ (get (ths s) i) = InLook seen ->
+    step s (mkSt' (refs s) (if downcast_closure_under_lock then None else lock s) (freed s) (drops s) (impl s) (completed s)
                   (upd (ths s) i (mkT (owns (get (ths s) i)) Idle))).
 
 Definition init (n : nat) : st :=
